@@ -329,6 +329,12 @@ func propC08(c C08Case) error {
 	}
 	cl := &libaudit.AuditClient{Netlink: k}
 	nontrivial := false
+	type keptSt struct {
+		op   int
+		got  *libaudit.AuditStatus
+		want []byte
+	}
+	var keptStatus []keptSt
 	for i, o := range c.Ops {
 		if len(o.Batch) > 0 {
 			if err := noWaitBatch(k, cl, o.Batch, i); err != nil {
@@ -338,6 +344,11 @@ func propC08(c C08Case) error {
 		scripted(k, o)
 		sentBefore := len(k.Sent)
 		var err error
+		for _, ks := range keptStatus {
+			if !bytes.Equal(statusBytes(ks.got), ks.want) {
+				return fmt.Errorf("op %d: the status GetStatus returned in op %d (the kernel sent %x) reads %+v now, after later operations on the client", i, ks.op, ks.want, *ks.got)
+			}
+		}
 		var gotStatus *libaudit.AuditStatus
 		var gotRules [][]byte
 		var gotN int
@@ -428,6 +439,8 @@ func propC08(c C08Case) error {
 				if gotStatus == nil || !bytes.Equal(statusBytes(gotStatus), want) {
 					return fmt.Errorf("%s: status %+v, kernel sent %x", what, gotStatus, o.Status)
 				}
+				// the result is the caller's: it is kept, and looked at again after every later operation
+				keptStatus = append(keptStatus, keptSt{i, gotStatus, want})
 			case "GetRules":
 				if len(gotRules) != len(o.Rules) {
 					return fmt.Errorf("%s: %d rules returned, kernel sent %d", what, len(gotRules), len(o.Rules))
